@@ -14,7 +14,7 @@ CONSTANTS
   Set2Gaps = {0, 1}
   Set2Sizes = {2}
   InitBacks = {0, 2, 100}
-  DataSizes = {2, 3, 10000}
+  DataSizes = {3, 10000}
   IovCnts = {1, 64}
   MaxWritten = 7
   MaxRounds = 3
